@@ -93,4 +93,7 @@ def run(chk, prog):
         else:
             chk.ok(o["rule"], o["instance"], o["fact"])
     chk.floor("container recursion obligations (from C17)", n17, 8)
+    # a masked constraint merged with an unmasked fallback at the same address (`|`) is resolved by Mask.__or__: its table (C19) decides which value constrains
+    from ._share import take
+    take(chk, prog, "C19", lambda o: o["instance"].split("/")[0] in ("Mask.__or__", "Mask.build", "Mask.flatten"), "Mask tables used when masked constraints are merged (from C19)", 2)
     chk.explanation = "arm polarity and weights of the masked-constraint arms of generate / update, mask propagation through Choice / Indexed, concrete-flag tables"
